@@ -43,7 +43,8 @@ Qed.
 
 Theorem enc_no_panic v : forall key, enc o v key <> Panic.
 Proof.
-  induction v as [x|b| |z|z|z|f|x|m IH|l IH] using value_ind2; intros key; cbn [enc]; try discriminate.
+  induction v as [x|b| |z|z|z|f|x|m IH|l IH] using value_ind2; intros key; cbn [enc]; try discriminate;
+    try (match goal with |- context [fmt_v ?w] => destruct (fmt_v w); discriminate end).
   - destruct (esc o x); discriminate.
   - (* map *)
     apply bind_no_panic; [apply attrs_of_no_panic|]. intros attrs.
